@@ -28,7 +28,7 @@ def regen(ctx):
 def oracle(scn, res):
     """The property over implementation observables only.  Yields (signature, description)."""
     outstanding = False
-    for i, (o, out, mtu) in enumerate(zip(scn['ops'], res['outs'], res['mtus'])):
+    for i, (o, out, mtu) in enumerate(zip(res['ops'], res['outs'], res['mtus'])):
         pdus = [bytes.fromhex(p) for p in out]
         if res['escaped'][i] == 'hang':
             yield ('handler-never-finishes', f'op {i} {o[:2]}: a handler task was still running after {ac.STEP_BUDGET} loop rounds')
@@ -197,14 +197,20 @@ def check_scenarios(ctx, labelled):
     model = ctx.coq_eval(['Model.AttServer'], exprs, shard=max(3, (len(exprs) + _jobs() - 1) // _jobs()))
     for k, ((label, s), r, mv) in enumerate(zip(labelled, impl, model)):
         m = ac.model_result(mv)
-        nreq = sum(1 for o in s['ops'] if o[0] == 'rx' and bytes.fromhex(o[1])[0] in ac.REQUEST_OPCODES)
+        nreq = sum(1 for o in r['ops'] if o[0] == 'rx' and bytes.fromhex(o[1])[0] in ac.REQUEST_OPCODES)
         ctx.case((label, s), nreq > 0 or label == 'initiated',
                  {'kind': label, 'bearer': s['bearer'], 'ops': s['ops'][:6], 'outs': r['outs'][:6]} if k % 17 == 1 else None)
         ctx.count(f'{label}.scenarios')
         ctx.count(f'{label}.ops', len(s['ops']))
+        for a in r['db']:
+            if a[7]:
+                ctx.count('attr.server_cccd')
+            elif a[5] or a[6]:
+                ctx.count('attr.read_%s.write_%s' % tuple('ok' if e == 0 else ('att_error' if e > 0 else 'other_exception')
+                                                             for e in (a[5], a[6])))
         ctx.count('bearer.enhanced' if s['bearer'].get('enh') else 'bearer.fixed')
         ctx.count('security.%s%s' % ('enc' if s['bearer']['enc'] else 'plain', '+auth' if s['bearer']['auth'] else ''))
-        for o, out in zip(s['ops'], r['outs']):
+        for o, out in zip(r['ops'], r['outs']):
             if o[0] == 'rx':
                 pdu = bytes.fromhex(o[1])
                 ctx.count('rx.op.0x%02X' % pdu[0] if pdu[0] in ac.REQUEST_OPCODES + [0x52, 0x1E, 0xD2] else 'rx.op.other')
@@ -215,7 +221,7 @@ def check_scenarios(ctx, labelled):
                 if p[:2] == '01':
                     ctx.count('tx.error.0x%s' % p[8:10])
         ctx.extra.setdefault('opcodes_sent', set()).update(
-            bytes.fromhex(o[1])[0] for o in s['ops'] if o[0] == 'rx')
+            bytes.fromhex(o[1])[0] for o in r['ops'] if o[0] == 'rx')
         if m is None:
             ctx.disagree(f'{label}: model has no handler for an op', _replay(s), None, r['outs'])
         else:
@@ -237,15 +243,15 @@ def _replay(s):
 
 def run(ctx):
     ctx.rule = ('scenario = generated GATT database (1-3 services, characteristics/descriptors with values of 0..512 '
-                'bytes, every permission combination, 16/32/128-bit UUIDs, static and callback-backed values, optionally '
-                'altered declaration permissions) x bearer (ATT_MTU 23..517 boundary-biased, plain/encrypted/'
+                'bytes, every permission combination, 16/32/128-bit UUIDs, static values and value objects whose read / '
+                'write function returns, raises ATT_Error, raises another exception or is missing, server-made CCCDs '
+                '(NOTIFY/INDICATE characteristics), optionally altered declaration permissions) x bearer (ATT_MTU 23..517 boundary-biased, plain/encrypted/'
                 'authenticated, fixed or EATT) x ~60 PDUs (every request opcode 2-3 times with boundary handles, ranges, '
                 'types, offsets, handle sets of 0..300 handles, truncated and over-long parameters; all 256 opcodes '
                 'cycled); plus notification/indication scenarios (CCCD writes, values 0..512, confirmations incl. '
                 'spurious and doubled, MTU raises). Loop run to idle after each op. Non-trivial: contains a request.')
     ctx.assumptions += [
-        'asyncio runs a task atomically up to its next suspension; attribute values are static bytes or callbacks '
-        'that return bytes / raise ATT_Error (other exceptions from application callbacks are outside the model)',
+        'asyncio runs a task atomically up to its next suspension',
         'the 30 s indication timeout does not fire',
         'a client does not lower ATT_MTU by a second Exchange MTU Request while indications are queued '
         '(C10_server_initiated_le_mtu is stated under that hypothesis; refuted without it in Proofs/AttServer.v)',
